@@ -2,6 +2,7 @@ import Driver.Util
 import Driver.MD
 import Driver.Cmds
 import Driver.SpecCmd
+import Driver.EncCmd
 /-! Line-protocol driver: one command per input line, one output line per input line. -/
 open Drv
 
@@ -24,6 +25,9 @@ def dispatch (line : String) : String :=
   | "allowed" :: a => cmdAllowed a
   | "spec" :: a => cmdSpec a
   | "specload" :: a => cmdSpecLoad a
+  | "encode" :: a => cmdEncode a
+  | "encstr" :: a => cmdEncStr a
+  | "encval" :: a => cmdEncVal a
   | "ping" :: _ => "pong"
   | _ => "bad-cmd"
 
